@@ -76,8 +76,12 @@ def syncChunks (s : St) : St :=
 
 def updatePoss (s : St) (cid : Nat) (st : ChkSt) : ChkSt × Nat :=
   match CIndex.findChk s.cidx (cid / 10) with
-  | none => (st, 0)
+  | none => if Generated.C02.updatePossOpensUnknownTail && st.count > 0 then ({ st with minPos := 0, maxPos := maxU32 }, 0) else (st, 0)
   | some c =>
+    if Generated.C02.updatePossOpensUnknownTail && st.count > c.recs then
+      -- records the journal has confirmed but the index has not been told about: the whole chunk stays open (repair of F46)
+      ({ st with minPos := 0, maxPos := maxU32 }, 0)
+    else
     updatePossWith s.rmin s.rmax c.minTs c.maxTs (CIndex.grEqAns s.cidx (cid / 10)) (CIndex.lessAns s.cidx (cid / 10)) st
 
 def rebuildStatuses (s : St) : St :=
